@@ -1,6 +1,7 @@
 /- Correspondence driver for the pitch calculus (C01, C02, C09, C14-parse). -/
 import MV.Codec
 import MV.Model.Pitch
+import MV.Model.ExtText
 open MV MV.Codec
 
 def step : List SExp → String
@@ -37,6 +38,40 @@ def step : List SExp → String
   | [.atom "rootext", c] =>
       match decChord c with
       | some c => showRes (fun (c : Chord) => "\"" ++ c.ext.toText ++ "\"") c.toRootExt
+      | none => "bad-args"
+  -- text level: (top <op> elem "<text with ( ) written < >>" ton oct [k])
+  | [.atom "top", .atom op, el, .atom text, t, o, k] =>
+      match el.asInt?, decTon t, o.asInt?, k.asInt? with
+      | some el, some t, some o, some k =>
+          let text := (text.replace "<" "(").replace ">" ")"
+          let text := if text == "\"\"" then "" else text
+          let r : Res Chord := do
+            let e ← Ext.ofText text
+            ({ elem := el, ext := e, ton := t, oct := o } : Chord).withExt e
+          match op with
+          | "exttext" => showRes (fun (c : Chord) => "\"" ++ c.ext.toText ++ "\"") r
+          | "chordp" => showRes showInts (do (← r).chordPitches)
+          | "extp" => showRes showInts (do (← r).extensionPitches)
+          | "invert" => showRes (fun (c : Chord) => "\"" ++ c.ext.toText ++ "\"") (do (← r).invert k)
+          | "rootext" => showRes (fun (c : Chord) => "\"" ++ c.ext.toText ++ "\"") (do (← r).toRootExt)
+          | _ => "bad-op"
+      | _, _, _, _ => "bad-args"
+  -- the same after `base[text]` (which validates and normalises the extension first)
+  | [.atom "xinvert", c, k] =>
+      match decChord c, k.asInt? with
+      | some c, some k => showRes (fun (c : Chord) => "\"" ++ c.ext.toText ++ "\"") (do (← c.withExt c.ext).invert k)
+      | _, _ => "bad-args"
+  | [.atom "xrootext", c] =>
+      match decChord c with
+      | some c => showRes (fun (c : Chord) => "\"" ++ c.ext.toText ++ "\"") (do (← c.withExt c.ext).toRootExt)
+      | none => "bad-args"
+  | [.atom "xchordp", c] =>
+      match decChord c with
+      | some c => showRes showInts (do (← c.withExt c.ext).chordPitches)
+      | none => "bad-args"
+  | [.atom "xextp", c] =>
+      match decChord c with
+      | some c => showRes showInts (do (← c.withExt c.ext).extensionPitches)
       | none => "bad-args"
   | [.atom "parse", c, p] =>
       match decChord c, p.asInt? with
